@@ -159,8 +159,39 @@ def run_sources(unit, part):
     part.sample({'kind': 'sources', 'source': src, 'link': flavour}, limit=1)
 
 
+def run_negotiation(unit, part):
+    """Server with / without a lease publisher x SETUP with / without the lease flag, followed by requests: LEASE frames are
+    legal only on a connection whose SETUP asked for them."""
+    from mc import monitors, refwire as R
+    from mc.solo import Solo
+    from rsocket.lease import SingleLeasePublisher
+    from rsocket.helpers import create_future
+    from mc.app import P
+    for flavour in ('tcp', 'msg'):
+        for publisher in (False, True):
+            for lease_flag in (False, True):
+                s = Solo('server', flavour, setup=False, beh={'request_response': lambda h, p: create_future(P(b'r'))},
+                         lease_publisher=SingleLeasePublisher(maximum_request_count=3) if publisher else None)
+                try:
+                    s.peer(R.enc_setup(lease=lease_flag))
+                    s.peer(R.enc_request(R.REQUEST_RESPONSE, 1, b'q'))
+                    s.advance(1.0)
+                    s.peer(R.enc_request(R.REQUEST_RESPONSE, 3, b'q'))
+                    v = monitors.wire_legality(s.log, s.ep, 'server', lenient_unknown=True)
+                    part.evaluations += 1
+                    part.traces += 1
+                    part.transitions += 3
+                    part.state(('negotiation', flavour, publisher, lease_flag, tuple((f.type, f.sid) for f in s.sent())))
+                    part.nontriv(('negotiation', flavour, publisher, lease_flag))
+                    for rule, sig, detail in v:
+                        part.violate(rule, sig + ' | negotiation', detail, {'kind': 'negotiation', 'unit': unit})
+                finally:
+                    s.teardown()
+    part.sample({'kind': 'lease-negotiation'}, limit=1)
+
+
 def make_units(tier):
-    units = []
+    units = [{'src': 'negotiation', 'bound': 0, 'name': 'negotiation', 'shard': [0, 1], 'fs': None, 'flavour': 'tcp'}]
     for src_kind in ('gen', 'agen'):
         for flavour in ('tcp', 'msg'):
             units.append({'src': 'sources', 'src_kind': src_kind, 'flavour': flavour, 'bound': 0, 'name': 'sources', 'shard': [0, 1], 'fs': None})
@@ -230,6 +261,8 @@ def scenario_of(unit):
 def run_unit(unit, part):
     if unit.get('src') == 'lease':
         return run_lease(unit, part)
+    if unit.get('src') == 'negotiation':
+        return run_negotiation(unit, part)
     if unit.get('src') == 'sources':
         return run_sources(unit, part)
     dev_explore(scenario_of(unit), unit['bound'], part, shard=tuple(unit['shard']), det_every=200)
@@ -245,6 +278,13 @@ def replay(rec):
         from mc.runner import Partial
         p = Partial()
         run_sources(w['unit'], p)
+        for v in p.violations.values():
+            print(v.rule, '|', v.detail[:300])
+        return rec['signature'] in p.violations
+    if w.get('kind') == 'negotiation':
+        from mc.runner import Partial
+        p = Partial()
+        run_negotiation(w['unit'], p)
         for v in p.violations.values():
             print(v.rule, '|', v.detail[:300])
         return rec['signature'] in p.violations
